@@ -176,7 +176,21 @@ async fn step(w: &mut World, t: &mut Trace, s: &Value) {
         "Spoof" => {
             // an advertisement whose holder is the receiver itself, or a peer it does not know
             let j = uz(&s["to"]) as usize - 1;
-            let holder = if st(&s["holder"], "self") == "self" { w.nodes[j].peer } else { w.stranger };
+            let holder = match st(&s["holder"], "self") {
+                "self" => w.nodes[j].peer,
+                // a peer the receiver KNOWS (it is in its routing table) but that is beyond its K closest peers:
+                // 30 further peers are inserted and the one farthest from the receiver (XOR of SHA-256 digests,
+                // computed here) advertises
+                "far" => {
+                    let me = Sha256::digest(w.nodes[j].peer.to_bytes());
+                    let mut rng = StdRng::seed_from_u64(w.run * 7919 + j as u64);
+                    let mut fillers: Vec<PeerId> = (0..30).map(|_| PeerId::from(keypair(&mut rng).public())).collect();
+                    for (n, p) in fillers.iter().enumerate() { w.nodes[j].add_peer(p, 43000 + n as u16); }
+                    fillers.sort_by_key(|p| { let d = Sha256::digest(p.to_bytes()); let x: Vec<u8> = me.iter().zip(d.iter()).map(|(a, b)| a ^ b).collect(); x });
+                    *fillers.last().expect("fillers")
+                }
+                _ => w.stranger,
+            };
             let src = uz(&s["from"]) as usize - 1;
             let keys: Vec<(NetworkAddress, RecordType)> = {
                 let n = &mut w.nodes[src];
